@@ -320,6 +320,9 @@ def evidence(rc):
                 it = norm(d[it][0]) if it in d else it
                 if it != t:
                     rc.fail(f, c, f"{q}: evidence_card iterates `{it}` but evidence is `{t}`", construct=f"{q} evidence_card order")
+            elif ec is not None:
+                rc.fail(f, c, f"{q}: evidence_card `{norm(ec, 60)}` is not computed from the evidence list `{t}` itself (a list built elsewhere can be in another order: "
+                        "parents with different cardinalities then get each other's)", construct=f"{q} evidence_card source")
     # the parsed lists preserve file order
     for rel, q, pat in ((BIF, "BIFReader.get_parents", None), (NET, "NETReader.get_parents", None), (XML, "XMLBIFReader.get_parents", 'findall("GIVEN")')):
         f = repo.func(rel, q)
